@@ -67,12 +67,14 @@ import (
 	"context"
 	"encoding/json"
 	"fmt"
+	"io"
 	"net"
 	"os"
 	"path/filepath"
 	"strconv"
 	"strings"
 	"sync"
+	"time"
 )
 
 type vMode int
@@ -543,7 +545,33 @@ func vReadBlock(rd *bufio.Reader) (block []byte, waited bool, err error) {
 }
 
 func (b *vBackend) serve(conn net.Conn, connNo int) {
-	rd := bufio.NewReaderSize(conn, 1<<16)
+	var src io.Reader = conn
+	b.mu.Lock()
+	dropArmed := b.cmdMode == vCmdDrop || (b.cmdFailNext > 0 && b.cmdFailMode == vCmdDrop)
+	b.mu.Unlock()
+	if dropArmed {
+		// a backend that takes a command connection and hangs up without reading it: only the first bytes are taken
+		// from the socket, so the rest of the batch is still unread when the connection is closed and the peer sees
+		// a connection reset instead of a plain end of file
+		peek := make([]byte, 8)
+		n, _ := conn.Read(peek)
+		if n == 8 && string(peek) == "COMMAND " {
+			b.mu.Lock()
+			if b.cmdMode != vCmdDrop && b.cmdFailNext > 0 {
+				b.cmdFailNext--
+			}
+			hook := b.OnCommandConn
+			b.mu.Unlock()
+			time.Sleep(30 * time.Millisecond)
+			if hook != nil {
+				hook()
+			}
+
+			return
+		}
+		src = io.MultiReader(bytes.NewReader(peek[:n]), conn)
+	}
+	rd := bufio.NewReaderSize(src, 1<<16)
 	isCmdConn := false
 	var cmdMode vCmdMode
 	var cmdMsg string
@@ -575,6 +603,10 @@ func (b *vBackend) serve(conn net.Conn, connNo int) {
 			}
 			b.mu.Unlock()
 			if cmdMode == vCmdDrop {
+				// close while lmd already waits for the answer (the rest of the batch stays unread: the peer sees a
+				// connection reset, not a plain end of file)
+				time.Sleep(30 * time.Millisecond)
+
 				break
 			}
 
